@@ -195,6 +195,11 @@ def check_1090(col, binpath, rng, tag, seg_kind, delay_kind, malformed, scratch)
         else:
             raise Inconclusive("1090 scenario did not finish")
         if s.srv.error:
+            if s.srv.error.startswith("accept:") and s.srv.connections == 0 and s.p.poll() is None:
+                # 20 s of a listening server without a connection attempt: the client processes nothing
+                col.count("scenarios_1090")
+                col.add("C16", f"C16|1090_never_connects|{cls}", f"1090 is running but did not connect to the listening server within its accept timeout ({s.srv.error})", inp)
+                return
             raise Inconclusive(f"feed server: {s.srv.error}")
         if closing:
             # give the client a moment behind the close (it may exit or keep polling; both are fine)
@@ -384,7 +389,16 @@ def check_radar(col, binpath, rng, tag, seg_kind, delay_kind, malformed, disconn
                 diff = procs.termios_diff(sess.p.termios_before, sess.p.termios_now())
                 if diff or not sess.p.screen.cursor_visible or sess.p.screen.mouse_reporting():
                     col.add("C16", f"C16|radar_terminal_not_restored_on_disconnect|disc={disconnect}", f"termios flags changed {diff}, cursor visible {sess.p.screen.cursor_visible}, mouse modes on {sess.p.screen.mouse_reporting()}", inp)
-    except Inconclusive:
+    except Inconclusive as e:
+        # a client that is up, says it is waiting for the server, and never connects to a listening
+        # server (another 25 s on top of the 20 s already waited) processes no line at all
+        if "never connected" in str(e) and sess.p.alive() and sess.srv.connections == 0:
+            end = time.monotonic() + 25
+            while time.monotonic() < end and sess.srv.connections == 0 and sess.p.alive():
+                sess.p.pump(0.2)
+            if sess.srv.connections == 0 and sess.p.alive() and any("Waiting for connection" in l for l in sess.p.screen.text()):
+                col.add("C16", f"C16|radar_never_connects|{cls}", "radar shows 'Waiting for connection' for 45 s while the server is listening on that port and accepts at once", inp)
+                return
         # a scenario that cannot be completed because radar is gone (and nobody asked it to quit) is a finding
         if sess.p.alive() or any(e[1] == "closed" for e in sess.srv.log):
             raise
